@@ -301,10 +301,24 @@ func init() {
 			// close tags under the void test
 			f := p.MustFn("(*formatter.Formatter).formatNode")
 			n := 0
+			// a close tag is written by the helper, or — when the helper was replaced by a smaller one that is inlined
+			// here — by the concatenation "</" + name
+			var closers []ssa.Instruction
 			for _, site := range callsIn(f) {
-				if calleeName(site.Common()) != "(*formatter.Formatter).renderCloseTag" {
-					continue
+				if calleeName(site.Common()) == "(*formatter.Formatter).renderCloseTag" {
+					closers = append(closers, site)
 				}
+			}
+			if len(closers) == 0 {
+				eachInstr(f, func(in ssa.Instruction) {
+					if b, ok := in.(*ssa.BinOp); ok && b.Op == token.ADD {
+						if s, ok := constString(b.X); ok && s == "</" {
+							closers = append(closers, b)
+						}
+					}
+				})
+			}
+			for _, site := range closers {
 				n++
 				guarded := false
 				for x := site.Block(); x != nil; x = x.Idom() {
